@@ -79,8 +79,8 @@ func addMenu() []AddCall {
 		{Kind: "remote", Addr: P1, Finder: "F2"},
 		{Kind: "remote", Addr: P5, Finder: "F1"},
 		{Kind: "remote", Addr: P6, Finder: "F2"},
-		{Kind: "remote", Addr: P1, Finder: "G1"},                          // another finder TYPE that prints like F1
-		{Kind: "registry", Addr: R1, Allowed: "only:1.0.0", Finder: "F1"}, // same source and finder as #4, another version
+		{Kind: "remote", Addr: P1, Finder: "G1"},                                  // another finder TYPE that prints like F1
+		{Kind: "registry", Addr: R1, Allowed: "only:1.0.0", Finder: "F1"},         // same source and finder as #4, another version
 		{Kind: "registry", Addr: R1 + "//m", Allowed: "only:2.0.0", Finder: "F2"}, // a set that skips lower versions it is offered (#14)
 	}
 }
@@ -525,6 +525,35 @@ func RunBundleWorlds(id, tier string) int {
 			rep.Sample(desc + fmt.Sprintf(" => calls=%d packages=%d", len(out.Calls), len(c.Packages)))
 		}
 	})
+	if id == "C14" && !time.Now().After(deadline) {
+		// the same worlds with every finder answering with a warning as well: a build with warnings is still
+		// fault-free, so nothing about "once" changes (an implementation that only remembers artifacts
+		// analysed without any diagnostics repeats them, and never ends on a cycle)
+		wargs := make([]BuildArg, len(scs))
+		pool.Map("build", len(scs), func(i int) any {
+			wargs[i] = args[i]
+			wargs[i].ForceFind = 4
+			return wargs[i]
+		}, func(i int, r core.Result) {
+			rep.Evaluations++
+			desc := scs[i].String() + " [every finder also returns a warning]"
+			if r.Hung || r.Crashed {
+				rep.Violation("sourcebundle.Builder/hang-or-crash", desc+" "+firstLines(r.Stderr, 3), "build", wargs[i])
+				return
+			}
+			var out BuildOut
+			core.MustOut(r, &out)
+			if closures[i].Error == "" && out.Bundle != nil {
+				rep.Outcome("built-with-warnings-and-judged")
+			}
+			for _, v := range judgeC14(scs[i], closures[i], out) {
+				rep.Violation(v[0]+"/with-finder-warnings", desc+" :: "+v[1], "build", wargs[i])
+			}
+		})
+		rep.Extra["scenarios_repeated_with_finder_warnings"] = len(scs)
+	} else if id == "C14" {
+		rep.Exhaustive = false
+	}
 	rep.States = len(scs)
 	rep.Transitions = rep.Evaluations
 	rep.Extra["scenarios"] = len(scs)
@@ -821,6 +850,10 @@ func RunC13(tier string) int {
 		if thorough {
 			bound = 2
 		}
+		mapOrdBudget = 150 * time.Second
+		if thorough {
+			mapOrdBudget = 20 * time.Minute
+		}
 		st := &mapOrdStats{}
 		exploreMapOrders(0, "build", mapArgs, bound, func(i int, raw json.RawMessage) string {
 			var out BuildOut
@@ -838,6 +871,9 @@ func RunC13(tier string) int {
 		}, st)
 		rep.Evaluations += st.Runs
 		rep.Extra["map_orders"] = st.summary()
+		if st.Capped {
+			rep.Exhaustive = false
+		}
 		fmt.Printf("  map-order part: worlds=%d runs=%d choice points=%d differing=%d\n", st.Tasks, st.Runs, st.Points, st.Differing)
 	}
 	if sc13 != nil {
